@@ -588,6 +588,15 @@ def step (st : St) (op : List String) (obs : Json) : St × String :=
   let a := if !hasTa then a else
     let pid := jtok (jget ta "pid")
     let ovr := (kv? op "ovr").bind String.toNat?
+    -- `GiveChildResponse` on its own: the model's `process` says whether the proxy hands a response over
+    let a := match op, a.st.proxy with
+      | "tagive" :: child :: _, some p =>
+        let k := jtok (jget obs "key")
+        let expect := match KM.Ta.process p (.giveChildResponse child k) with
+          | .ok _ => "ok" | .error _ => "refused"
+        let a := a.tag s!"tagive/{expect}"
+        if ret == expect then a else a.fail s!"tagive: model {expect}, implementation {ret}"
+      | _, _ => a
     -- glue prediction for a crafted child request, on the state before
     let a := match op, a.st.proxy with
       | "tareq" :: child :: kind :: _, some p =>
